@@ -1445,3 +1445,99 @@ Proof.
     { apply Permutation_map. unfold empty_part. now apply Permutation_flat_map. }
     now rewrite L2, F2 in X.
 Qed.
+
+(** * split_axis (keep_dims) followed by concat_along_axis *)
+Section SplitAxis.
+  Context {B : Type}.
+  Implicit Types X Y : list (list B).
+
+  Lemma zip_star_cons2 (l l2 : list B) r : zip_star (l :: l2 :: r) = zip_cons l (zip_star (l2 :: r)).
+  Proof. reflexivity. Qed.
+
+  Lemma zip_star_singletons (l : list B) : l <> [] -> zip_star (map (fun x => [x]) l) = [l].
+  Proof.
+    induction l as [|x l IH]; [easy|]. intros _. destruct l as [|x2 l]; [reflexivity|].
+    cbn [map]. rewrite zip_star_cons2. cbn [map] in IH. rewrite IH by easy. reflexivity.
+  Qed.
+
+  Lemma zip_star_zip_cons (l : list B) : forall Y,
+    l <> [] -> length l = length Y -> zip_star (zip_cons l Y) = l :: zip_star Y.
+  Proof.
+    induction l as [|x l IH]; intros [|y Y] NN HL; try easy.
+    destruct l as [|x2 l], Y as [|y2 Y]; try (cbn in HL; lia).
+    - reflexivity.
+    - change (zip_cons (x :: x2 :: l) (y :: y2 :: Y)) with ((x :: y) :: zip_cons (x2 :: l) (y2 :: Y)).
+      assert (E : zip_cons (x2 :: l) (y2 :: Y) = (x2 :: y2) :: zip_cons l Y) by reflexivity.
+      rewrite E, zip_star_cons2, <- E. rewrite IH by (cbn in *; try easy; lia).
+      rewrite zip_star_cons2. reflexivity.
+  Qed.
+
+  Lemma zip_cons_length (l : list B) : forall Y, length l = length Y -> length (zip_cons l Y) = length l.
+  Proof. induction l as [|x l IH]; intros [|y Y] H; cbn in *; try easy. now rewrite IH by lia. Qed.
+  Lemma zip_cons_rows (l : list B) : forall Y m,
+    Forall (fun r => length r = m) Y -> Forall (fun r => length r = S m) (zip_cons l Y).
+  Proof.
+    induction l as [|x l IH]; intros [|y Y] m H; cbn; try constructor.
+    - inversion H; subst. cbn. lia.
+    - inversion H; subst. now apply IH.
+  Qed.
+
+  Lemma zip_star_shape X n :
+    X <> [] -> Forall (fun r => length r = n) X ->
+    length (zip_star X) = n /\ Forall (fun r => length r = length X) (zip_star X).
+  Proof.
+    induction X as [|l X IH]; [easy|]. intros _ H. inversion H as [|? ? H1 H2]; subst.
+    destruct X as [|l2 X].
+    - cbn. rewrite map_length. split; [reflexivity|]. apply Forall_forall. intros r Hr.
+      apply in_map_iff in Hr as (x & <- & _). reflexivity.
+    - rewrite zip_star_cons2. destruct (IH ltac:(easy) H2) as [I1 I2]. split.
+      + rewrite zip_cons_length; auto. 
+      + cbn [length]. now apply zip_cons_rows.
+  Qed.
+
+  Lemma zip_star_involutive X n :
+    X <> [] -> (1 <= n)%nat -> Forall (fun r => length r = n) X -> zip_star (zip_star X) = X.
+  Proof.
+    induction X as [|l X IH]; [easy|]. intros _ Hn H. inversion H as [|? ? H1 H2]; subst.
+    destruct X as [|l2 X].
+    - cbn [zip_star]. apply zip_star_singletons. destruct l; [cbn in Hn; lia|easy].
+    - rewrite zip_star_cons2. destruct (zip_star_shape (l2 :: X) (length l) ltac:(easy) H2) as [I1 I2].
+      rewrite zip_star_zip_cons.
+      + f_equal. now apply IH.
+      + destruct l; [cbn in Hn; lia|easy].
+      + now rewrite I1.
+  Qed.
+End SplitAxis.
+
+Theorem split_axis_concat {A} (inputs : list (list A)) n :
+  inputs <> [] -> (1 <= n)%nat -> Forall (fun a => length a = n) inputs ->
+  exists trees, split_axis_keep inputs = Some trees /\ length trees = n /\
+                concat_along_axis trees = Some inputs.
+Proof.
+  intros NN Hn HL.
+  set (X := map (map (fun x : A => [x])) inputs).
+  assert (HX : Forall (fun r => length r = n) X).
+  { unfold X. rewrite Forall_forall in *. intros r Hr. apply in_map_iff in Hr as (a & <- & Ha).
+    rewrite map_length. auto. }
+  assert (XN : X <> []) by (unfold X; destruct inputs; easy).
+  assert (AS : all_some (map (split_sections n) inputs) = Some X).
+  { unfold X. clear NN XN HX. induction inputs as [|a inputs IH]; [reflexivity|].
+    inversion HL as [|? ? H1 H2]; subst. cbn [map all_some].
+    rewrite split_sections_self by (destruct a; [cbn in Hn; lia|easy]). now rewrite (IH H2). }
+  exists (zip_star X).
+  destruct (zip_star_shape X n XN HX) as [S1 S2].
+  split; [|split; [exact S1|]].
+  - unfold split_axis_keep. destruct inputs as [|a0 rest]; [easy|].
+    pose proof (Forall_inv HL) as H1. pose proof (Forall_inv_tail HL) as H2. cbn beta in H1.
+    assert (FB : forallb (fun a => Nat.eqb (length a) (length a0)) rest = true).
+    { apply forallb_forall. intros a Ha. rewrite Forall_forall in H2. apply Nat.eqb_eq.
+      rewrite H1. exact (H2 _ Ha). }
+    now rewrite FB, H1, AS.
+  - unfold concat_along_axis. destruct (zip_star X) as [|t0 trest] eqn:EZ; [cbn in S1; lia|].
+    assert (FB : forallb (fun t => Nat.eqb (length t) (length t0)) trest = true).
+    { apply forallb_forall. intros t Ht. rewrite Forall_forall in S2. apply Nat.eqb_eq.
+      rewrite (S2 t0 (or_introl eq_refl)), (S2 t (or_intror Ht)). reflexivity. }
+    rewrite FB, <- EZ. rewrite (zip_star_involutive X n XN Hn HX). f_equal.
+    unfold X. rewrite map_map. etransitivity; [|apply map_id]. apply map_ext.
+    intro a. induction a as [|x a IHa]; cbn; [reflexivity|]. now rewrite IHa.
+Qed.
